@@ -633,6 +633,10 @@ impl<'a> Interp<'a> {
                     }
                 }
             }
+            Exec::FailingScript(_) => {
+                self.error_execution();
+                false
+            }
             Exec::Log(e) => match self.eval(e) {
                 Ok(_) => true,
                 Err(_) => {
